@@ -93,6 +93,10 @@ pub fn run(ctx: &Ctx, rep: &mut Reporter) -> Json {
             let w = crate::props::c02::corpus_window(&d, &mut rng, 12_000);
             rep.count("large_mappings", 1);
             ("corpus-window-large".to_string(), w)
+        } else if case_idx % 8 == 5 {
+            // class and method names that run into each other when concatenated
+            let n = *rng.pick(&[8usize, 64, 70, 200, 2000]);
+            ("ast-concat-collisions".to_string(), pgvcore::ast::concat_collision_ast(n).print_lf())
         } else if case_idx % 8 == 3 {
             // two large methods with inline chains at many positions of their entry lists
             let n = *rng.pick(&[16usize, 33, 64]);
@@ -101,7 +105,7 @@ pub fn run(ctx: &Ctx, rep: &mut Reporter) -> Json {
             gen_input(ctx, case_idx * 4 + (case_idx % 3), &mut rng)
         };
         let big_ok = kind != "ast-huge-group"; // hundreds of frames per line there: a 24 000-line trace would expand to millions
-        let r = guarded(|| one_mapping(&text, &mut rng, rep, case_idx, ctx, &mut sigs, big_ok));
+        let r = guarded(|| one_mapping(&text, &mut rng, rep, case_idx, ctx, &mut sigs, big_ok, &kind));
         match r {
             Ok(o) => overlaps_total += o,
             Err(p) => panic_violation(rep, case_idx, "panic", &p, mapping_detail(&text[..text.len().min(3000)], &kind)),
@@ -112,7 +116,7 @@ pub fn run(ctx: &Ctx, rep: &mut Reporter) -> Json {
     extra
 }
 
-fn one_mapping(text: &[u8], rng: &mut Rng, rep: &mut Reporter, case_idx: u64, ctx: &Ctx, sigs: &mut std::collections::HashSet<u64>, big_ok: bool) -> u64 {
+fn one_mapping(text: &[u8], rng: &mut Rng, rep: &mut Reporter, case_idx: u64, ctx: &Ctx, sigs: &mut std::collections::HashSet<u64>, big_ok: bool, kind: &str) -> u64 {
     // ---- the mapping itself, shared cold (by reference and through clones)
     {
         let (nt, repeats, rounds) = if ctx.variant == "miri" { (3, 1, 1) } else { (*rng.pick(&[2usize, 4, 8, 16]), 4, 3) };
@@ -194,6 +198,13 @@ fn one_mapping(text: &[u8], rng: &mut Rng, rep: &mut Reporter, case_idx: u64, ct
             big_at = Some(batch.len());
             batch.push(Q::Text(t));
             rep.count("batches_with_a_trace_of_24000_frame_lines", 1);
+        }
+    }
+    let mut collision_queries: Vec<usize> = vec![];
+    if kind == "ast-concat-collisions" {
+        for (c, m) in [("k.ab", "c"), ("k.a", "bc"), ("k.a.b", "cd"), ("k.a.bc", "d"), ("k$x", "y"), ("k", "$xy")] {
+            collision_queries.push(batch.len());
+            batch.push(Q::Method(c.to_string(), m.to_string()));
         }
     }
     // few keys, many threads: duplicate a handful of hot queries
@@ -323,8 +334,15 @@ fn one_mapping(text: &[u8], rng: &mut Rng, rep: &mut Reporter, case_idx: u64, ct
         hot.dedup_by_key(|i| format!("{:?}", batch[*i]));
         hot.truncate(4);
         let single: Vec<usize> = (0..batch.len()).filter(|i| matches!(batch[*i], Q::Line(..)) && !multi(&exp_m[*i]) && exp_m[*i].contains("NFrame")).take(3).collect();
-        if !hot.is_empty() && hot.len() + single.len() >= 2 {
-            let keys: Vec<usize> = hot.iter().chain(single.iter()).copied().collect();
+        // method lookups too: a few that answer and a few that do not (ambiguous or unknown)
+        let mut meth: Vec<usize> = collision_queries.clone();
+        for want_some in [true, false, true, false, true, false] {
+            if let Some(i) = (0..batch.len()).find(|i| matches!(batch[*i], Q::Method(..)) && exp_m[*i].starts_with("Some") == want_some && !meth.contains(i) && meth.iter().all(|j| format!("{:?}", batch[*j]) != format!("{:?}", batch[*i]))) {
+                meth.push(i);
+            }
+        }
+        if (!hot.is_empty() && hot.len() + single.len() >= 2) || meth.len() >= 2 {
+            let keys: Vec<usize> = hot.iter().chain(single.iter()).chain(meth.iter()).copied().collect();
             let iters = if ctx.variant == "miri" { 6 } else if ctx.variant == "tsan" { 2_000 } else { 30_000 };
             let bad: Vec<(usize, bool)> = std::thread::scope(|s| {
                 let hs: Vec<_> = (0..nthreads)
